@@ -67,6 +67,18 @@ Example ex_toxic :
   toxlog s = [0].
 Proof. vm_compute. auto 12. Qed.
 
+(* clear_recycling_bin() empties the bin and nothing else: the counters, the
+   queue and the fates are as they were; a later digest fills the bin again *)
+Example ex_clear_bin :
+  let ops := [Ingest Misfolded 0 (Ok [5]); IngestSensitive (Ok []); DigestOp (Some 1)] in
+  let s0 := run (mkConfig 8 9 1 true) ops in
+  let s1 := run (mkConfig 8 9 1 true) (ops ++ [ClearBin]) in
+  let s2 := run (mkConfig 8 9 1 true) (ops ++ [ClearBin; Ingest Orphaned 0 (Ok [5; 6]); DigestOp None]) in
+  bin s0 = [(5, 0)] /\ bin s1 = [] /\ queue s1 = queue s0 /\ g_fates s1 = g_fates s0 /\
+  (n_ingested s1, n_digested s1, n_recycled s1) = (2, 1, 1) /\
+  bin s2 = [(5, 2); (6, 2)] /\ toxlog s2 = [1].
+Proof. vm_compute. auto 12. Qed.
+
 (* ---- overlapping digest calls ------------------------------------------ *)
 
 Definition cfg_free := mkConfig 8 9 2 true.
